@@ -28,7 +28,8 @@ InitChains == {<<>>, <<E0("ref", "refs/heads/main", 1)>>, <<E0("ref", "refs/head
 JobChoices(c) ==
     {[op |-> "ref", ref |-> r, t |-> 2] : r \in {"refs/heads/main", "refs/heads/feat"}}
     \cup {[op |-> "prop", ref |-> "refs/heads/main", t |-> 3, up |-> "u1"]}
-    \cup {[op |-> "ann", tg |-> tg, skip |-> TRUE] : tg \in {<<1>>, <<0>>, <<1, 2>>}}
+    \* annotation targets: positions; 0 = an existing commit that is not an RSL entry, 99 = no such object
+    \cup {[op |-> "ann", tg |-> tg, skip |-> TRUE] : tg \in {<<1>>, <<0>>, <<1, 2>>} \cup (IF Mode = "seq" THEN {<<99>>, <<1, 0>>} ELSE {})}
     \cup {[op |-> "branch", ref |-> r] : r \in {StagingRef, AttRef}}
     \cup (IF Mode = "seq" THEN {[op |-> "apply"]} ELSE {})
 
